@@ -130,6 +130,9 @@ func fixed() []rtgen.CaseT {
 	p8 := "/:p1/:p2/:p3/:p4/:p5/:p6/:p7/:p8"
 	ovfNames := []rtgen.RegT{reg(G, p8+"/:x/k"), reg(G, p8+"/:y/:x/m", rtgen.ConsT{Name: "y", Kind: "int"}, rtgen.ConsT{Name: "x", Kind: "int"}),
 		reg(G, p8+"/:z/w/*", rtgen.ConsT{Name: "z", Kind: "int"})}
+	deep := []rtgen.RegT{reg(G, "/a/:x/b/c"), reg(G, "/a/:p/*"), reg(G, "/a/b/:q/c", rtgen.ConsT{Name: "q", Kind: "int"}), reg(G, "/:r/:s")}
+	ovfBack := []rtgen.RegT{reg(G, p8+"/:x", rtgen.ConsT{Name: "x", Kind: "int"}), reg(G, "/:p1/:p2/*")}
+	ovfDrop := []rtgen.RegT{reg(G, p8+"/:x/k"), reg(G, p8+"/*"), reg(G, p8+"/:y/:z/w")}
 	mk := func(s []rtgen.RegT, m, p string, nr bool) rtgen.CaseT {
 		return rtgen.CaseT{Script: s, Req: rtgen.ReqT{Method: m, Path: p}, NoRoute: nr}
 	}
@@ -170,6 +173,15 @@ func fixed() []rtgen.CaseT {
 		mk(ovfNames, G, "/1/2/3/4/5/6/7/8/9/10/m", false), mk(ovfNames, G, "/1/2/3/4/5/6/7/8/nine/10/m", false),
 		mk(ovfNames, G, "/1/2/3/4/5/6/7/8/9/k", false), mk(ovfNames, G, "/1/2/3/4/5/6/7/8/9/w/a/b", false),
 		mk(ovfNames, "PUT", "/1/2/3/4/5/6/7/8/9/10/m", false),
+		// K01b / K01f (repaired): the descent backtracks. A static edge that leads nowhere hands over to the
+		// parameter sibling and further up to a wildcard (captures of the abandoned alternative dropped); a leaf
+		// that rejects (also one whose 9th parameter was already entered into Params) hands over to a wildcard
+		// nearer the root, and the handler must not see the rejected leaf's parameters
+		mk(deep, G, "/a/1/b/d", false), mk(deep, G, "/a/1/b/c", false), mk(deep, G, "/a/b/b/c", false), mk(deep, G, "/a/1", false),
+		mk(ovfBack, G, "/1/2/3/4/5/6/7/8/abc", false), mk(ovfBack, G, "/1/2/3/4/5/6/7/8/9", false), mk(ovfBack, "PUT", "/1/2/3/4/5/6/7/8/abc", false),
+		mk(k01b, G, "/users/admin/q/y", false), mk(k01b, "PUT", "/users/admin/posts", false),
+		// an abandoned alternative's capture past the inline slots is dropped too
+		mk(ovfDrop, G, "/1/2/3/4/5/6/7/8/9/m", false), mk(ovfDrop, G, "/1/2/3/4/5/6/7/8/9/k", false), mk(ovfDrop, G, "/1/2/3/4/5/6/7/8/9/10/11", false),
 	}
 }
 
